@@ -13,6 +13,7 @@ from __future__ import annotations
 import ast
 import glob
 import itertools
+import zlib
 import os
 import sys
 import time
@@ -195,10 +196,38 @@ def harvested_fragments(limit: int):
     return uniq[:limit]
 
 
+def parameter_lists(tier):
+    """every parameter list built from: 0..2 positional parameters (trailing defaults, optional `/`), nothing | *args | bare *,
+    0..2 (thorough: 3) keyword-only parameters with EVERY default/no-default pattern, optional **kw"""
+    out = []
+    kmax = 2 if tier == "quick" else 3
+    pos_variants = [""]
+    for npos in (1, 2):
+        names = ["p", "q"][:npos]
+        for ndef in range(npos + 1):
+            ps = [n if i < npos - ndef else f"{n}={i + 1}" for i, n in enumerate(names)]
+            pos_variants.append(", ".join(ps))
+            if tier != "quick":
+                pos_variants.append(", ".join(ps[:1] + ["/"] + ps[1:]))
+    for pos in pos_variants:
+        for star in ("", "*args", "*"):
+            for k in range(0, kmax + 1):
+                if star == "" and k > 0 or star == "*" and k == 0:
+                    continue
+                for mask in range(1 << k):
+                    kws = [f"k{i}" if not mask >> i & 1 else f"k{i}='d{i}'" for i in range(k)]
+                    for kw in ("", "**kw"):
+                        parts = [x for x in [pos, star] + kws + [kw] if x]
+                        out.append(", ".join(parts))
+    return out
+
+
 def run(tier="quick", seed=0, pid="C08"):
     t0 = time.time()
     fe = front_end()
     snippets = []
+    for pl in parameter_lists(tier):
+        snippets.append(("params", f"def f({pl}): return 0"))
     for e in EXPRESSIONS:
         snippets.append(("expr", f"x = {e}"))
     for s in STATEMENTS:
@@ -222,7 +251,7 @@ def run(tier="quick", seed=0, pid="C08"):
         distinct.add(text)
         status, detail = check_snippet(fe, text)
         counts[status] += 1
-        if len(samples) < 10 and status == "ok" and kind in ("expr", "stmt", "nested") and len(samples) < 10 and hash(text) % 7 == 0:
+        if len(samples) < 10 and status == "ok" and kind in ("expr", "stmt", "nested") and len(samples) < 10 and zlib.crc32(text.encode()) % 7 == 0:
             samples.append({"kind": kind, "snippet": text, "status": status})
         if status == "altered":
             sig = detail.split(" || ")[0]
@@ -239,7 +268,8 @@ def run(tier="quick", seed=0, pid="C08"):
     evaluated = sum(counts.values()) - counts["cpython-rejects"]
     return {
         "evaluations": evaluated, "distinct_nontrivial": counts["ok"] + counts["altered"] + counts["rejected"],
-        "rule": ("snippets = expression forms (as `x = <expr>`), statement forms, expression forms nested in 9 statement contexts, and "
+        "rule": ("snippets = every parameter list from a systematic enumeration (positional/defaults, *args or bare *, all default patterns of "
+                 "keyword-only parameters, **kw) as def, expression forms (as `x = <expr>`), statement forms, expression forms nested in 9 statement contexts, and "
                  "Python fragments of the repository's .fan files; each goes through the real spec front end and the text Fandango "
                  "would exec is re-parsed by CPython and compared (ast.dump) with CPython's AST of the original; distinct = distinct "
                  "snippet text that CPython accepts; all are non-trivial"),
